@@ -81,7 +81,22 @@ def install(w):
             "validate_union_members": ["kind_is(union, 'UNION')"],
             "validate_enum_values": ["kind_is(enum_type, 'ENUM')"],
         }.get(m, [])
-        w.contract(f"{CTX}.{m}", params=params, requires=req, ensures=MONO, props={"C20"}, **NEVER)
+        extra = {}
+        if m == "validate_type_implements_interface":
+            # per-iteration contracts of the two argument loops (reports <=> the rule is violated)
+            extra["loops"] = {
+                2: {"step_post": [
+                    # an interface argument must exist on the field with an equal type
+                    "ghost('errs') == at_iter_start(ghost('errs')) + ite("
+                    "not omap_has(type_field.args, arg_name)"
+                    " or not EqT(iface_arg.type, omap_at(type_field.args, arg_name).type), 1, 0)"]},
+                3: {"step_post": [
+                    # an additional argument must not be required
+                    "ghost('errs') == at_iter_start(ghost('errs')) + ite("
+                    "not omap_has(iface_field.args, arg_name) and Required(type_arg), 1, 0)"]},
+            }
+        w.contract(f"{CTX}.{m}", params=params, requires=req, ensures=MONO, props={"C20"},
+                   **NEVER, **extra)
 
     for h, params, ret in (
         ("get_operation_type_node", {"schema": "ref:GraphQLSchema", "operation": "atom:OperationType"},
